@@ -3,6 +3,6 @@
    N, Z, Q stay extracted inductives.  No Extract Constant. *)
 Require Extraction.
 Require Import ExtrOcamlBasic.
-From KV Require Import Model.Triu Model.Greedy.
+From KV Require Import Model.Triu Model.Greedy Model.Kaisa.
 Extraction "model.ml" triu_idx fill_index_matrix sym_comm_outcome
-  greedy greedy_ok_b greedy_prop_b.
+  greedy greedy_ok_b greedy_prop_b kaisa_view.
